@@ -641,3 +641,354 @@ theorem foldQueues_self (step : Book → Nat × List Nat → Book) (g : Nat × L
     rw [← this]
 
 end Sge.Core
+
+namespace Sge.Core
+open Sge Sge.Genesis
+
+-- ---------------------------------------------------------------------------------------------
+-- deposits
+
+/-- the exposure a deposit opens for one outcome -/
+def freshExp (o n : Nat) : PExp := { odds := o, idx := n, exposure := 0, bet := 0, fulfilled := false, round := 1 }
+
+theorem initFold_fields (n : Nat) : ∀ (l : List (Nat × List Nat)) (b : Book),
+    (l.foldl (initExposures n) b).parts = b.parts ∧ (l.foldl (initExposures n) b).hist = b.hist ∧
+    (l.foldl (initExposures n) b).partCount = b.partCount ∧ (l.foldl (initExposures n) b).oddsCount = b.oddsCount ∧
+    (l.foldl (initExposures n) b).pexps = l.foldl (fun ps oq => upsert PExp.key (freshExp oq.1 n) ps) b.pexps := by
+  intro l
+  induction l with
+  | nil => intro b; exact ⟨rfl, rfl, rfl, rfl, rfl⟩
+  | cons x xs ih =>
+    intro b
+    simp only [List.foldl_cons]
+    have := ih (initExposures n b x)
+    exact ⟨this.1, this.2.1, this.2.2.1, this.2.2.2.1, this.2.2.2.2⟩
+
+theorem freshFold (n : Nat) : ∀ (l : List (Nat × List Nat)) (ps0 : List PExp), Sorted PExp.key ps0 →
+    l.Pairwise (fun a c => a.1 ≠ c.1) → (∀ e ∈ ps0, e.idx = n → ∀ oq ∈ l, e.odds ≠ oq.1) →
+    Sorted PExp.key (l.foldl (fun ps oq => upsert PExp.key (freshExp oq.1 n) ps) ps0) ∧
+    (∀ e, e ∈ l.foldl (fun ps oq => upsert PExp.key (freshExp oq.1 n) ps) ps0 ↔ e ∈ ps0 ∨ ∃ oq ∈ l, e = freshExp oq.1 n) ∧
+    (∀ j, sumBy (cntAt j) (l.foldl (fun ps oq => upsert PExp.key (freshExp oq.1 n) ps) ps0) =
+      sumBy (cntAt j) ps0 + if j = n then (l.length : Int) else 0) ∧
+    (∀ j, sumBy (unfAt j) (l.foldl (fun ps oq => upsert PExp.key (freshExp oq.1 n) ps) ps0) =
+      sumBy (unfAt j) ps0 + if j = n then (l.length : Int) else 0) ∧
+    (∀ o i, (i ≠ n ∨ ∀ oq ∈ l, oq.1 ≠ o) → lookup PExp.key [o, i] (l.foldl (fun ps oq => upsert PExp.key (freshExp oq.1 n) ps) ps0) =
+      lookup PExp.key [o, i] ps0) ∧
+    (∀ oq ∈ l, lookup PExp.key [oq.1, n] (l.foldl (fun ps oq => upsert PExp.key (freshExp oq.1 n) ps) ps0) = some (freshExp oq.1 n)) := by
+  intro l
+  induction l with
+  | nil =>
+    intro ps0 hs _ _
+    refine ⟨hs, by simp, by simp, by simp, fun _ _ _ => rfl, fun _ h => by cases h⟩
+  | cons x xs ih =>
+    intro ps0 hs hp hn
+    rw [List.pairwise_cons] at hp
+    simp only [List.foldl_cons]
+    have hnone : lookup PExp.key (PExp.key (freshExp x.1 n)) ps0 = none := by
+      rw [lookup_eq_none_iff]
+      intro y hy hk
+      have : y.odds = x.1 ∧ y.idx = n := by simpa [PExp.key, freshExp] using hk
+      exact hn y hy this.2 x (List.mem_cons_self ..) this.1
+    have hkne : ∀ y ∈ ps0, (PExp.key y == PExp.key (freshExp x.1 n)) = false := by
+      intro y hy
+      have := (lookup_eq_none_iff _ _ _).mp hnone y hy
+      simpa using this
+    have hmem1 : ∀ e, e ∈ upsert PExp.key (freshExp x.1 n) ps0 ↔ e = freshExp x.1 n ∨ e ∈ ps0 := by
+      intro e
+      rw [mem_upsert_iff PExp.key _ e ps0 hs]
+      constructor
+      · rintro (h | h)
+        · exact Or.inl h
+        · exact Or.inr h.1
+      · rintro (h | h)
+        · exact Or.inl h
+        · exact Or.inr ⟨h, hkne e h⟩
+    obtain ⟨i1, i2, i3, i4, i5, i6⟩ := ih (upsert PExp.key (freshExp x.1 n) ps0) (upsert_sorted _ _ _ hs) hp.2 (by
+      intro e he hen oq hoq
+      rcases (hmem1 e).mp he with rfl | he
+      · exact hp.1 oq hoq
+      · exact hn e he hen oq (List.mem_cons_of_mem _ hoq))
+    refine ⟨i1, ?_, ?_, ?_, ?_, ?_⟩
+    · intro e
+      rw [i2 e, hmem1 e]
+      constructor
+      · rintro ((h | h) | ⟨oq, h1, h2⟩)
+        · exact Or.inr ⟨x, List.mem_cons_self .., h⟩
+        · exact Or.inl h
+        · exact Or.inr ⟨oq, List.mem_cons_of_mem _ h1, h2⟩
+      · rintro (h | ⟨oq, h1, h2⟩)
+        · exact Or.inl (Or.inr h)
+        · rcases List.mem_cons.mp h1 with rfl | h1
+          · exact Or.inl (Or.inl h2)
+          · exact Or.inr ⟨oq, h1, h2⟩
+    · intro j
+      rw [i3 j, sumBy_upsert PExp.key _ _ ps0 hs, hnone]
+      simp only [List.length_cons]
+      by_cases hj : j = n
+      · subst hj
+        rw [cntAt_eq (by rfl)]
+        simp only [if_true]
+        push_cast
+        omega
+      · rw [cntAt_ne (by show n ≠ j; exact fun e => hj e.symm)]
+        simp only [hj, if_false]
+        omega
+    · intro j
+      rw [i4 j, sumBy_upsert PExp.key _ _ ps0 hs, hnone]
+      simp only [List.length_cons]
+      by_cases hj : j = n
+      · subst hj
+        rw [unfAt_eq (by rfl)]
+        simp only [if_true, freshExp]
+        push_cast
+        omega
+      · rw [unfAt_ne (by show n ≠ j; exact fun e => hj e.symm)]
+        simp only [hj, if_false]
+        omega
+    · intro o i hc
+      rw [i5 o i (by
+        rcases hc with h | h
+        · exact Or.inl h
+        · exact Or.inr (fun oq hoq => h oq (List.mem_cons_of_mem _ hoq)))]
+      apply lookup_upsert_ne
+      cases hk : PExp.key (freshExp x.1 n) == [o, i]
+      · rfl
+      · exfalso
+        have : x.1 = o ∧ n = i := by simpa [PExp.key, freshExp] using hk
+        rcases hc with h | h
+        · exact h this.2.symm
+        · exact h x (List.mem_cons_self ..) this.1
+    · intro oq hoq
+      rcases List.mem_cons.mp hoq with rfl | hoq
+      · rw [i5 oq.1 n (Or.inr (fun oq' h' e => hp.1 oq' h' e.symm))]
+        exact lookup_upsert_self PExp.key (freshExp oq.1 n) ps0
+      · exact i6 oq hoq
+
+/-- a deposit keeps the queue invariant -/
+theorem addParticipation_QInv (b : Book) (addr : Nat) (liq fee : Int) (h : QInv b) :
+    QInv (b.addParticipation addr liq fee).1 := by
+  obtain ⟨hS, hQ⟩ := h
+  have hnew : ∀ p ∈ b.parts, p.idx ≤ b.partCount := by
+    intro p hp
+    exact ((idx_range_mem hS.pIdx p.idx).mp ⟨p, hp, rfl⟩).2
+  -- the book after the new participation is stored
+  let np := b.newPart addr liq fee
+  let b1 := b.setPart np
+  have hstep : ∀ (bk : Book) (oq : Nat × List Nat),
+      (initExposures (b.partCount + 1) bk oq).queues = (bk.setQueue oq.1 ((fun x : Nat × List Nat => x.2 ++ [b.partCount + 1]) oq)).queues := fun _ _ => rfl
+  obtain ⟨q1, q2, q3⟩ := foldQueues_self (initExposures (b.partCount + 1)) (fun x => x.2 ++ [b.partCount + 1]) hstep b1 hS.sQ
+  obtain ⟨f1, f2, f3, f4, f5⟩ := initFold_fields (b.partCount + 1) b1.queues b1
+  have hnoN : ∀ e ∈ b.pexps, e.idx ≠ b.partCount + 1 := by
+    intro e he
+    have := (hS.eKey e he).2
+    omega
+  obtain ⟨g1, g2, g3, g4, g5, g6⟩ := freshFold (b.partCount + 1) b1.queues b.pexps hS.sE (sorted_qkey_pairwise hS.sQ)
+    (fun e he hen => absurd hen (hnoN e he))
+  have hz1 : sumBy (cntAt (b.partCount + 1)) b.pexps = 0 := sumBy_zero _ _ (fun e he => cntAt_ne (hnoN e he))
+  have hz2 : sumBy (unfAt (b.partCount + 1)) b.pexps = 0 := sumBy_zero _ _ (fun e he => unfAt_ne (hnoN e he))
+  -- name the result
+  generalize hB : (b.addParticipation addr liq fee).1 = B
+  have eParts : B.parts = upsert Part.key np b.parts := by rw [← hB]; exact f1
+  have eHist : B.hist = b.hist := by rw [← hB]; exact f2
+  have ePc : B.partCount = b.partCount + 1 := by rw [← hB]; rfl
+  have eOc : B.oddsCount = b.oddsCount := by rw [← hB]; exact f4
+  have eExps : B.pexps = b1.queues.foldl (fun ps oq => upsert PExp.key (freshExp oq.1 (b.partCount + 1)) ps) b.pexps := by
+    rw [← hB]; exact f5
+  have eQ : ∀ o, B.getQueue o = (b.getQueue o).map (fun q => q ++ [b.partCount + 1]) := by
+    intro o; rw [← hB]; exact q1 o
+  have eKeys : B.queues.map (·.1) = b.queues.map (·.1) := by rw [← hB]; exact q2
+  have eSQ : Sorted qkey B.queues := by rw [← hB]; exact q3
+  have hgp : ∀ i, i ≠ b.partCount + 1 → B.getPart i = b.getPart i := by
+    intro i hi
+    unfold Book.getPart; rw [eParts]
+    exact lookup_upsert_ne Part.key np [i] b.parts (by
+      simpa [Part.key] using fun e : np.idx = i => hi (e.symm.trans rfl))
+  have hgpN : B.getPart (b.partCount + 1) = some np := by
+    unfold Book.getPart; rw [eParts]
+    exact lookup_upsert_self Part.key np b.parts
+  have hge : ∀ o i, i ≠ b.partCount + 1 → B.getExp o i = b.getExp o i := by
+    intro o i hi
+    unfold Book.getExp; rw [eExps]
+    exact g5 o i (Or.inl hi)
+  have hgeN : ∀ o, o ∈ b.queues.map (·.1) → B.getExp o (b.partCount + 1) = some (freshExp o (b.partCount + 1)) := by
+    intro o ho
+    obtain ⟨oq, hoq, rfl⟩ := List.mem_map.mp ho
+    unfold Book.getExp; rw [eExps]
+    exact g6 oq hoq
+  have hlen : (b1.queues.length : Int) = b.oddsCount := by
+    show ((b.queues.length : Nat) : Int) = _
+    rw [hS.oc]
+  constructor
+  · refine ⟨?_, ?_, ?_, eSQ, ?_, ?_, ?_, ?_, ?_, ?_, ?_, ?_⟩
+    · rw [eParts]; exact upsert_sorted Part.key np b.parts hS.sP
+    · rw [eExps]; exact g1
+    · rw [eHist]; exact hS.sH
+    · rw [eParts, ePc, upsert_append Part.key np b.parts (by
+        intro y hy
+        have := hnew y hy
+        show ltL [y.idx] [b.partCount + 1] = true
+        simp [ltL]; omega)]
+      rw [List.map_append, hS.pIdx, List.range'_concat]
+      simp [np, Book.newPart, Nat.add_comm]
+    · have := congrArg List.length eKeys
+      simp only [List.length_map] at this
+      rw [this, eOc]; exact hS.oc
+    · intro e he
+      rw [eExps, g2] at he
+      rw [ePc]
+      rcases he with he | ⟨oq, _, rfl⟩
+      · have := hS.eKey e he; omega
+      · simp [freshExp]
+    · intro x hx
+      rw [eHist] at hx
+      rw [ePc]
+      have := hS.hKey x hx; omega
+    · intro i h1 h2 o ho
+      rw [eKeys] at ho
+      by_cases hi : i = b.partCount + 1
+      · rw [hi, hgeN o ho]; rfl
+      · rw [hge o i hi]
+        exact hS.eAll i h1 (by rw [ePc] at h2; omega) o ho
+    · intro i p _ hg
+      rw [eExps, g4 i]
+      by_cases hi : i = b.partCount + 1
+      · rw [hi] at hg ⊢
+        rw [hgpN] at hg
+        cases hg
+        simp only [if_true]
+        rw [hz2, hlen]
+        simp [np, Book.newPart]
+      · rw [hgp i hi] at hg
+        simp only [hi, if_false]
+        rw [hS.nf i p trivial hg]; omega
+    · intro i h1 h2
+      rw [eExps, g3 i, eOc]
+      by_cases hi : i = b.partCount + 1
+      · rw [hi]
+        simp only [if_true]
+        rw [hz1, hlen]; omega
+      · simp only [hi, if_false]
+        rw [hS.ne i h1 (by rw [ePc] at h2; omega)]; omega
+    · intro i _
+      by_cases hi : i = b.partCount + 1
+      · refine ⟨1, ?_, ?_⟩
+        · intro e he hei
+          rw [eExps, g2] at he
+          rcases he with he | ⟨oq, _, rfl⟩
+          · exact absurd (hei.trans hi) (hnoN e he)
+          · rfl
+        · intro x hx hxi
+          rw [eHist] at hx
+          have := hS.hKey x hx; omega
+      · obtain ⟨r, r1, r2⟩ := hS.rnd i trivial
+        refine ⟨r, ?_, by rw [eHist]; exact r2⟩
+        intro e he hei
+        rw [eExps, g2] at he
+        rcases he with he | ⟨oq, _, rfl⟩
+        · exact r1 e he hei
+        · exact absurd hei.symm hi
+  · intro o q' hq'
+    rw [eQ o] at hq'
+    simp only [Option.map_eq_some_iff] at hq'
+    obtain ⟨q, hq, rfl⟩ := hq'
+    obtain ⟨hn, hm⟩ := hQ o q hq
+    have hok : o ∈ b.queues.map (·.1) := (Book.getQueue_isSome_iff b o).mp (by rw [hq]; rfl)
+    constructor
+    · rw [List.nodup_append]
+      refine ⟨hn, by simp, ?_⟩
+      intro a ha c hc e
+      simp only [List.mem_cons, List.not_mem_nil, or_false] at hc
+      have := (hm a ha).2.1
+      omega
+    · intro j hj
+      rw [ePc]
+      simp only [List.mem_append, List.mem_cons, List.not_mem_nil, or_false] at hj
+      rcases hj with hj | rfl
+      · obtain ⟨a1, a2, e, a3, a4⟩ := hm j hj
+        refine ⟨a1, by omega, e, ?_, a4⟩
+        rw [hge o j (by omega)]; exact a3
+      · exact ⟨by omega, by omega, freshExp o (b.partCount + 1), hgeN o hok, rfl⟩
+
+end Sge.Core
+
+namespace Sge.Core
+open Sge Sge.Genesis
+
+-- ---------------------------------------------------------------------------------------------
+-- withdrawals
+
+/-- with duplicate-free queues `removeNotWithdrawableFromFulfillmentQueue` never panics and filters every queue -/
+theorem removeFromQueues_eq (idx : Nat) : ∀ (l : List (Nat × List Nat)) (b : Book), (∀ oq ∈ l, oq.2.Nodup) →
+    removeFromQueues idx l b = some (l.foldl (fun bk oq => bk.setQueue oq.1 (oq.2.filter (fun j => j != idx))) b) := by
+  intro l
+  induction l with
+  | nil => intro b _; rfl
+  | cons x xs ih =>
+    intro b hn
+    unfold removeFromQueues
+    rw [goRemove_nodup x.2 idx (hn x (List.mem_cons_self ..))]
+    simp only [List.foldl_cons]
+    exact ih _ (fun oq h => hn oq (List.mem_cons_of_mem _ h))
+
+theorem setQueueFold_fields (g : Nat × List Nat → List Nat) : ∀ (l : List (Nat × List Nat)) (b : Book),
+    (l.foldl (fun bk oq => bk.setQueue oq.1 (g oq)) b).parts = b.parts ∧
+    (l.foldl (fun bk oq => bk.setQueue oq.1 (g oq)) b).pexps = b.pexps ∧
+    (l.foldl (fun bk oq => bk.setQueue oq.1 (g oq)) b).hist = b.hist ∧
+    (l.foldl (fun bk oq => bk.setQueue oq.1 (g oq)) b).partCount = b.partCount ∧
+    (l.foldl (fun bk oq => bk.setQueue oq.1 (g oq)) b).oddsCount = b.oddsCount ∧
+    (l.foldl (fun bk oq => bk.setQueue oq.1 (g oq)) b).uid = b.uid := by
+  intro l
+  induction l with
+  | nil => intro b; exact ⟨rfl, rfl, rfl, rfl, rfl, rfl⟩
+  | cons x xs ih =>
+    intro b
+    simp only [List.foldl_cons]
+    exact ih (b.setQueue x.1 (g x))
+
+/-- a withdrawal keeps the queue invariant -/
+theorem withdraw_QInv (b b' : Book) (idx : Nat) (w : Int) (h : QInv b) (hw : b.withdraw idx w = some b') : QInv b' := by
+  obtain ⟨hS, hQ⟩ := h
+  unfold Book.withdraw at hw
+  cases hp : b.getPart idx with
+  | none => rw [hp] at hw; cases hw
+  | some p =>
+    rw [hp] at hw
+    simp only at hw
+    have hpi := Book.getPart_idx hp
+    have hS1 : SInv (b.setPart { p with crl := p.crl - w, liq := p.liq - w }) (fun _ => True) := by
+      apply SInv.setPart hS _ p (by show b.getPart p.idx = some p; rw [hpi]; exact hp)
+      · intro j _
+        refine ⟨fun hj => ?_, fun _ => trivial⟩
+        have hj : j = idx := hj.trans hpi
+        rw [hj]
+        exact hS.nf idx p trivial hp
+      · intro j _ _
+        exact hS.rnd j trivial
+    have hQ1 : QV (b.setPart { p with crl := p.crl - w, liq := p.liq - w }) (b.setPart { p with crl := p.crl - w, liq := p.liq - w }).getQueue := hQ
+    split at hw
+    · cases hw; exact ⟨hS1, hQ1⟩
+    · generalize hb1 : b.setPart { p with crl := p.crl - w, liq := p.liq - w } = b1 at hw hS1 hQ1
+      have hnd : ∀ oq ∈ b1.queues, oq.2.Nodup := by
+        intro oq hoq
+        exact (hQ1 oq.1 oq.2 (Book.mem_getQueue hS1.sQ hoq)).1
+      rw [removeFromQueues_eq idx b1.queues b1 hnd] at hw
+      cases hw
+      obtain ⟨q1, q2, q3⟩ := foldQueues_self (fun bk oq => bk.setQueue oq.1 (oq.2.filter (fun j => j != idx)))
+        (fun oq => oq.2.filter (fun j => j != idx)) (fun _ _ => rfl) b1 hS1.sQ
+      obtain ⟨f1, f2, f3, f4, f5, _⟩ := setQueueFold_fields (fun oq => oq.2.filter (fun j => j != idx)) b1.queues b1
+      constructor
+      · exact SInv.of_stores hS1 f1 f2 f3 f4 f5 q2 q3
+      · apply QV.mono hQ1 f4
+        intro o q' hq'
+        rw [q1 o] at hq'
+        simp only [Option.map_eq_some_iff] at hq'
+        obtain ⟨q, hq, rfl⟩ := hq'
+        refine ⟨(hQ1 o q hq).1.filter _, ?_⟩
+        intro j hj
+        left
+        refine ⟨q, hq, (List.mem_filter.mp hj).1, ?_⟩
+        intro hu
+        unfold Book.unf Book.getExp at hu ⊢
+        rw [f2]; exact hu
+
+end Sge.Core
